@@ -2115,6 +2115,7 @@ func (s *Supervisor) checkOutcome(rec *ScanRecord) {
 				st.Probe("documented not-in-group stop")
 			} else {
 				s.violate(Violation{Property: "C20", Rule: "c20-stop", Sub: "not-in-group", Scan: rec.Index, Life: rec.Life, Detail: "RunOnce stopped with not-in-group for " + o.NotInGroupNode + " although the node's instance is a member of the known ASG"})
+				s.violate(Violation{Property: "C19", Rule: "c19-foreign", Sub: "member-refused", Site: "controller", Scan: rec.Index, Life: rec.Life, Detail: "the removal request stopped with the not-in-group error for " + o.NotInGroupNode + " although its instance is a member of the known ASG (as of the last refresh answer)"})
 			}
 		case badDescribes >= 2:
 			st.Probe("credential-refresh path gave up after repeated Describe failures")
